@@ -16,9 +16,9 @@
 (* record.  Intermediate messages MUST NOT contain the SOA resource record."   *)
 (* 2.2.1: ID copied, QR 1, OPCODE 0, AA 1 and RCODE 0 in the absence of an     *)
 (* error, TC 0, QDCOUNT 1 in the first message and 0 or 1 afterwards (1 if     *)
-(* the RCODE is an error), NSCOUNT 0.  3: every RR of the zone is transferred; *)
-(* 3.5 (ordering): after the leading SOA the order is free, each RR SHOULD be  *)
-(* transmitted only once.  4.2: AXFR over UDP is not defined.                  *)
+(* the RCODE is an error), NSCOUNT 0.  2.2 (end): after the leading SOA the order *)
+(* and grouping of the RRs is free, each RR SHOULD be transmitted only once.   *)
+(* 3.1: every RR of the zone appears.  4.2: AXFR over UDP is not defined.      *)
 (* RFC 1995 2/4: an IXFR query whose serial is the server's or newer "is       *)
 (* replied to with a single SOA record of the server's current version"; "if   *)
 (* incremental zone transfer is not available, the entire zone is returned.    *)
@@ -88,7 +88,7 @@ Holds(name, msgs, zone, req, foreign) ==
          [] name = "nothing-foreign"   -> Range(flat) \cap foreign = {}
          [] name = "all-records"    -> zone.rest \subseteq Range(flat)
          [] name = "all-rrsigs"     -> zone.sigs \subseteq Range(flat)
-         \* RFC 5936 3.5: each RR SHOULD be transmitted only once
+         \* RFC 5936 2.2: each RR SHOULD be transmitted only once
          [] name = "once"           -> Cardinality(Range(mid)) = Len(mid)
          [] name = "refused-rcode"  -> \A i \in DOMAIN msgs : msgs[i].rc = Refused
          [] name = "error-rcode"    -> \A i \in DOMAIN msgs : msgs[i].rc # 0
